@@ -678,3 +678,45 @@ def check_C11(chk):
                           block=(("exch",), ("exch",)))
     chk.extra["events_validated"] = chk.traces
     chk.traces = max(0, chk.evaluations - len(chk.violations))
+
+
+def check_C12(chk):
+    chk.rule = ("the full matrix {blocking, async} x {native-tls, rustls} x {ignore unset, false, true} x {no root, right root "
+                "PEM, right root DER, unrelated root} x {valid, wrong name, expired, self-signed, unknown issuer} = 240 "
+                "configurations enumerated by TLC, each run once with the real client (one harness build per TLS back end) "
+                "against a loopback rustls server with static fixtures; recorded: send() result and application octets "
+                "the server received; judged by Trace_Tls against IppTls.Accept")
+    chk.exhaustive = True
+    chk.assumptions = ["cryptography is not modelled; the TLS stacks are exercised", "static fixtures under fixtures/tls "
+                       "(valid until 2126; the expired leaf expired in 2020)", "system trust store does not contain the test roots"]
+    build_harness("vhtls-rustls")
+    build_harness("vhtls-native")
+    wd = workdir("C12")
+    cases = os.path.join(wd, "cases.ndjson")
+    r = mc("C12", "mc_tls", "MC_Tls.tla", dict(DerRoots="parsed"),
+           ["NoDataUnlessAuthenticated", "SuppliedRootAccepted", "Gen"], properties=["Decides"], case_file=cases)
+    chk.add_mc(r, "MC_Tls (240 configurations)")
+    if r["cases"] != 240:
+        raise ToolError("expected 240 TLS configurations, got %d" % r["cases"])
+    out = os.path.join(wd, "run")
+    os.makedirs(out, exist_ok=True)
+    fix = os.path.join(ROOT, "fixtures", "tls")
+    for b in ["rustls", "native"]:
+        harness("vhtls-" + b, ["--cases", cases, "--out", out, "--fixtures", fix], timeout=1800)
+    trace = os.path.join(out, "trace.ndjson")
+    n = 0
+    with open(trace, "w") as t, open(os.path.join(out, "trace.side.ndjson"), "w") as s:
+        for b in ["rustls", "native-tls"]:
+            for line in open(os.path.join(out, "trace.%s.ndjson" % b)):
+                t.write(line)
+                s.write(json.dumps({"how": "vhtls-%s with fixtures/tls" % b, "cfg": json.loads(line)["cfg"]}) + "\n")
+                n += 1
+                if len(chk.samples) < 4 and n % 57 == 1:
+                    chk.samples.append(json.loads(line))
+    chk.evaluations += n
+    chk.distinct += n
+    known = [k for k in load_known() if k.get("status") == "known" and k.get("property") == "C12"]
+    validate_with_retries(chk, "trace_tls", "Trace_Tls.tla", trace, os.path.join(out, "trace.side.ndjson"),
+                          constants={"AcceptD9": bool(known)},
+                          describe=lambda ev: "TLS configuration %s: send() returned %s (%s), server application received %s octets" % (
+                              json.dumps(ev.get("cfg")), ev.get("res"), ev.get("err"), ev.get("app_bytes")))
